@@ -6,7 +6,7 @@
    classify a datagram are total functions in the model (C16) and are run against the real parser
    for every length 0..80 and every first byte in every receiver state (py/props/c08.py); a panic
    of the real code shows up there as a `panic` result line the model does not produce. *)
-From VpnModel Require Import Base Core CoreProofs Conn PeerCrypto Node NodeProofs Dissect DissectProofs.
+From VpnModel Require Import Base Core CoreProofs Conn PeerCrypto NodeInfo Table Node NodeProofs Dissect DissectProofs InitProofs InvProofs.
 
 (* at every stage of a connection object: ordinary error (never the Panic result), object unchanged, no reply *)
 Theorem C08_object_drops : forall ok p w, unverifiable w -> pc_plain p = false ->
@@ -22,6 +22,33 @@ Proof. exact unverifiable_no_residue. Qed.
 Theorem C08_node_sequence : forall salts now l n, Forall (fun x => unverifiable (snd x)) l -> all_encrypted n ->
   same_state n (fst (inject_all salts now n l)) /\ snd (inject_all salts now n l) = [].
 Proof. exact unverifiable_sequence. Qed.
+
+(* for EVERY wire value - replays of genuine handshake messages included - a connection object whose handshake state satisfies the invariant (waiting for a pong implies still holding the ECDH key) never reaches the unwrap of a consumed key *)
+Theorem C08_no_consumed_key_unwrap : forall ok p w, pinv p -> snd (fst (pc_handle ok p w)) <> Panic 11.
+Proof. exact pc_no_panic11. Qed.
+
+(* that invariant survives every outcome that is neither fatal nor a panic *)
+Theorem C08_invariant_preserved : forall ok p w, pinv p ->
+  pfatal (snd (fst (pc_handle ok p w))) = false -> panics (snd (fst (pc_handle ok p w))) = false ->
+  pinv (fst (fst (pc_handle ok p w))).
+Proof. exact pinv_preserved. Qed.
+
+(* (the same at the level of the handshake state machine) *)
+Theorem C08_invariant_preserved_init : forall ok s m, ecdh_inv s ->
+  fatal (snd (fst (handle_init ok s m))) = false -> panics (snd (fst (handle_init ok s m))) = false ->
+  ecdh_inv (fst (fst (handle_init ok s m))).
+Proof. exact ecdh_inv_preserved. Qed.
+
+(* new connection objects satisfy it *)
+Theorem C08_invariant_new : forall node salt payload key trusted al fresh rnd, pinv (pc_new node salt payload key trusted al fresh rnd).
+Proof. exact pinv_new. Qed.
+
+(* and the cooperating site at node level: a fatal handshake error from a pending object removes that object in the same step, so a state that violates the invariant never survives (a change that makes the pong decryption error non-fatal breaks exactly this pair) *)
+Theorem C08_fatal_object_deleted : forall salts now n src w pc,
+  aget (n_pending n) src = Some pc -> (is_init_wire w || negb (ahas (n_peers n) src)) = true ->
+  snd (fst (pc_handle payload_ok pc w)) = Err 2 ->
+  aget (n_pending (fst (handle_net salts now n src w))) src = None.
+Proof. exact pending_fatal_deleted. Qed.
 
 (* the datagram decryption path has no panic result for any datagram (after the fixes of F1 and F2) *)
 Theorem C08_core_never_panics : forall c d, is_panic (snd (core_decrypt c d)) = false.
@@ -47,6 +74,11 @@ Proof. split; exact I. Qed.
 Print Assumptions C08_object_drops.
 Print Assumptions C08_node_no_residue.
 Print Assumptions C08_node_sequence.
+Print Assumptions C08_no_consumed_key_unwrap.
+Print Assumptions C08_invariant_preserved.
+Print Assumptions C08_invariant_preserved_init.
+Print Assumptions C08_invariant_new.
+Print Assumptions C08_fatal_object_deleted.
 Print Assumptions C08_core_never_panics.
 Print Assumptions C08_core_junk.
 Print Assumptions C08_frame_never_panics.
